@@ -1946,3 +1946,11 @@ MA('C17', 'power-space ufunc results wrapped in the input space',
    'odl/space/pspace.py', 'ProductSpaceElement.__array_wrap__',
    'return self.space.astype(array.dtype).element(array)',
    'return self.space.element(array)', 'R6')
+MA('C19', 'translation added in place to the detector position',
+   'odl/tomo/geometry/parallel.py', 'Parallel3dAxisGeometry.__init__',
+   'det_pos_init = det_pos_init + translation', 'det_pos_init += translation',
+   'R4m')
+MA('C19', 'sliced 2d geometry built from the translated detector position',
+   'odl/tomo/geometry/parallel.py', 'Parallel2dGeometry.__init__',
+   'det_pos_init = det_pos_init + translation', 'det_pos_init += translation',
+   'R4m')
